@@ -100,6 +100,12 @@ func c11Impl(op string, vals []refsem.Val) (obs string, isErr bool) {
 		}
 	}()
 	v, err := c11Apply(op, a)
+	// an operator never changes its operands (values are immutable)
+	for i := range a {
+		if now := impl.ToRef(a[i]).Canon(); now != vals[i].Canon() {
+			return fmt.Sprintf("PANIC operand %d of %s changed from %s to %s @operand-mutated", i, op, vals[i].Canon(), now), false
+		}
+	}
 	if err != nil {
 		return "ERR " + impl.ErrClass(err), true
 	}
@@ -135,9 +141,10 @@ func c11IndexDomain() (containers []refsem.Val, indices []refsem.Val) {
 		containers = append(containers, refsem.Val{K: refsem.KArr, A: el})
 		containers = append(containers, refsem.Str("abcd"[:n]))
 	}
+	containers = append(containers, refsem.Str("naïve"), refsem.Str("é"), refsem.Str("日本"))
 	containers = append(containers, refsem.Nil, I(5), refsem.Float(1.5), refsem.Bool(true), refsem.Val{K: refsem.KFn},
 		refsem.Val{K: refsem.KArr, A: []refsem.Val{{K: refsem.KArr, A: []refsem.Val{I(1)}}, refsem.Str("x")}})
-	for i := -2; i <= 6; i++ {
+	for i := -2; i <= 8; i++ {
 		indices = append(indices, I(i))
 	}
 	indices = append(indices, I(math.MaxInt64), I(math.MinInt64), refsem.Nil, refsem.Float(1), refsem.Bool(false), refsem.Str("0"), refsem.Val{K: refsem.KArr})
